@@ -120,6 +120,7 @@ inductive Err where
   | missing    -- --fail-on-missing-taxonomy
   | thr        -- threshold outside [0, 1]
   | empty      -- nothing loaded
+  | unbound    -- `UnboundLocalError` in `LineageDB.load`: a LIN taxonomy file without any row (finding C19.4)
   | other
 deriving Repr, DecidableEq
 
@@ -271,6 +272,22 @@ def classify [DecidableEq ν] (A : Arith α) (rp : Option (Repair α)) (nranks :
       if sr.isEmpty then .error .noRanks
       else classifyLoop A rp thr (sr.reverse.map (fun r => (r, sumAtRank A rows r))) none
 
+/-! ### several queries: `aggregate_by_lineage_at_rank` (krona / lineage_summary of a multi-query run) -/
+
+/-- `lineage_summary[key] += v` on an insertion-ordered `defaultdict(float)` -/
+def aggBump {κ : Type} [DecidableEq κ] (A : Arith α) (key : κ) (v : α) : List (κ × α) → List (κ × α)
+  | [] => [(key, A.add A.zero v)]
+  | (k, a) :: t => if k = key then (k, A.add a v) :: t else (k, a) :: aggBump A key v t
+
+/-- `aggregate_by_lineage_at_rank(query_gather_results, rank, by_query=False)`: the entries of rank `r` of every
+query (queries in order, each query's entries in table order) are summed per display lineage, then every sum is
+divided by the number of queries -/
+def aggregateAt {κ : Type} [DecidableEq κ] (A : Arith α) (divn : α → Nat → α) (keyOf : Lineage ν → κ) (r : Nat)
+    (qs : List (List (Entry α ν))) : List (κ × α) :=
+  let all := qs.flatMap (fun es => es.filter (fun e => e.rank = r))
+  let summed := all.foldl (fun acc e => aggBump A (keyOf e.lin) e.f acc) []
+  summed.map (fun p => (p.1, divn p.2 qs.length))
+
 /-- the repair the translator found in the source (`none` = the code as it is): `FLOAT_TOLERANCE = 1/den`
 as a double, and `1 + FLOAT_TOLERANCE` as the double addition computes it -/
 def f64Repair : Option (Repair F64.SF) :=
@@ -323,6 +340,54 @@ def Gather.qbp {ν : Type} (g : Gather ν) : Nat := g.N * g.scaled
 `unique_intersect_bp = k * scaled` -/
 def Gather.toF {ν : Type} (g : Gather ν) : List (RowV F64.SF ν) :=
   g.rows.map (fun r => ⟨F64.SF.ofF (F64.divNat r.k g.N), F64.SF.ofF (F64.divNat r.w g.W), r.k * g.scaled, r.lin⟩)
+
+
+/-! ### writers that format numbers: kreport, bioboxes, human -/
+
+/-- Python `'%.<k>f' % x` for a non-negative double, as the integer `round_half_even(x · 10^k)` of the EXACT binary
+value (CPython formats the exact value, correctly rounded) -/
+def fmtDec (x : F64.F) (k : Nat) : Nat :=
+  if x.e ≥ 0 then x.m * 2 ^ x.e.toNat * 10 ^ k
+  else F64.shiftRNE (x.m * 10 ^ k) (-x.e).toNat false
+
+/-- the text of `'%.<k>f'` (k ≥ 1) -/
+def fmtDecStr (x : F64.F) (k : Nat) : String :=
+  let h := fmtDec x k
+  let frac := toString (h % 10 ^ k)
+  toString (h / 10 ^ k) ++ "." ++ String.ofList (List.replicate (k - frac.length) '0') ++ frac
+
+/-- `f_weighted * 100` (the int 100 becomes the double 100.0) -/
+def timesHundred (fw : F64.SF) : F64.F := F64.fmul fw.a (F64.ofNat 100)
+
+/-- kreport / lingroup `num_bp_contained = int(f_weighted * total_weighted_bp)`: one float product, truncated -/
+def kreportBp (fw : F64.SF) (totalBp : Nat) : Nat := F64.floor (F64.fmul fw.a (F64.ofNat totalBp))
+
+/-- one kreport row: percent text, bp contained, bp assigned, rank code, name -/
+structure KRow where
+  pct : String
+  bpc : Nat
+  bpa : Nat
+  code : String
+  name : String
+
+def rankCodes : List String := ["D", "P", "C", "O", "F", "G", "S"]
+
+/-- `make_kreport_results`: ranks in order (strain has no code and is skipped), the entries of each rank in table
+order, the unclassified remainder reported once (the first one met) -/
+def kreportRows (totalBp : Nat) (ess : List (List (Entry F64.SF String))) : List KRow :=
+  let es := ess.flatten.filter (fun e => e.rank < 7)
+  let rec go (l : List (Entry F64.SF String)) (seenU : Bool) : List KRow :=
+    match l with
+    | [] => []
+    | e :: t =>
+      let bpc := kreportBp e.fw totalBp
+      let pct := fmtDecStr (timesHundred e.fw) 2
+      if e.lin.isEmpty then
+        if seenU then go t seenU else ⟨pct, bpc, bpc, "U", "unclassified"⟩ :: go t true
+      else
+        let name := (e.lin.getLast?.join).getD ""
+        ⟨pct, bpc, if e.rank = 6 then bpc else 0, rankCodes.getD e.rank "?", name⟩ :: go t seenU
+  go es false
 
 /-! ### identifiers and taxonomy loading (strings) -/
 
